@@ -113,7 +113,7 @@ package p9p
 //@ let D1 = fcall.Message.(MessageTwrite).Data
 //@ requires ctx != nil && ch != nil && ch.codec != nil && ch.conn != nil && ch.bwr != nil && fcall != nil && 0 <= ch.msize && ch.msize < 2147483648
 //@ requires typeis(fcall.Message, MessageTwrite) ==> len(fcall.Message.(MessageTwrite).Data) < 4294967296 - 23
-//@ ensures caller_buffer: preserved("E:uint8") && ch.msize == old(ch.msize)
+//@ ensures caller_buffer: preserved("E:uint8") && ch.msize == old(ch.msize) && fcall.Type == old(fcall.Type) && fcall.Tag == old(fcall.Tag)
 //@ ensures one_frame: err == nil ==> out(ch.bwr) == bcat(old(out(ch.bwr)), bcat(le4(4 + wireSize(*fcall)), encFcall(*fcall))) && (4 + wireSize(*fcall) <= ch.msize || (typeis(M0, MessageTread) && ch.msize < 23))
 //@ ensures nothing_on_error: err != nil && !iofailed() ==> out(ch.bwr) == old(out(ch.bwr))
 //@ ensures cancelled: old(cancelled(ctx)) ==> err != nil && out(ch.bwr) == old(out(ch.bwr))
@@ -161,3 +161,37 @@ package p9p
 //@ ensures delivered: !old(cancelled(ctx)) && !old(closedch(ch.closed)) && blen(R) >= SZ && 4 <= SZ && SZ <= ch.msize && decOk(B) && !iofailed() ==> err == nil
 //@ ensures undecodable: !old(cancelled(ctx)) && !old(closedch(ch.closed)) && blen(R) >= SZ && 4 <= SZ && SZ <= ch.msize && !decOk(B) ==> err != nil && (!iofailed() ==> rem(ch.brd) == bdrop(R, SZ))
 //@ ensures bad_length: blen(R) >= 4 && SZ < 4 ==> err != nil
+
+// ---------------------------------------------------------------- version.go (C10)
+
+//@ func servernegotiate
+//@ property C10
+//@ use wire bytes
+//@ let C = ch.(*channel)
+//@ let R = old(rem(C.brd))
+//@ let SZ = dec4(btake(R, 4))
+//@ let B = btake(bdrop(R, 4), SZ - 4)
+//@ let REQ = decFcall(B).Message
+//@ let M0 = old(C.msize)
+//@ requires ctx != nil && typeis(ch, *channel) && C != nil && C.codec != nil && C.conn != nil && C.brd != nil && C.bwr != nil && 24 <= C.msize && C.msize < 2147483648 && len(C.rdbuf) == C.msize
+//@ ensures inv: len(C.rdbuf) == C.msize && 0 <= C.msize && C.msize <= M0
+//@ ensures first_must_be_version: err == nil ==> decOk(B) && typeis(REQ, MessageTversion)
+//@ ensures refused_silently: !old(cancelled(ctx)) && !old(closedch(C.closed)) && blen(R) >= SZ && !(decOk(B) && typeis(REQ, MessageTversion)) ==> err != nil && out(C.bwr) == old(out(C.bwr))
+//@ ensures min: err == nil ==> C.msize == min(M0, REQ.(MessageTversion).MSize)
+//@ ensures reply: err == nil ==> exists f Fcall :: {encFcall(f)} out(C.bwr) == bcat(old(out(C.bwr)), bcat(le4(4 + wireSize(f)), encFcall(f))) && 4 + wireSize(f) <= C.msize && f.Tag == NOTAG && typeis(f.Message, MessageRversion) && f.Message.(MessageRversion).MSize == C.msize
+//@ ensures no_partial_reply: !iofailed() && err != nil && version != "unknown" ==> out(C.bwr) == old(out(C.bwr))
+
+//@ func clientnegotiate
+//@ property C10
+//@ use wire bytes
+//@ let C = ch.(*channel)
+//@ let M0 = old(C.msize)
+//@ let R = old(rem(C.brd))
+//@ let SZ = dec4(btake(R, 4))
+//@ let B = btake(bdrop(R, 4), SZ - 4)
+//@ let REP = decFcall(B).Message
+//@ requires ctx != nil && typeis(ch, *channel) && C != nil && C.codec != nil && C.conn != nil && C.brd != nil && C.bwr != nil && 24 <= C.msize && C.msize < 2147483648 && len(C.rdbuf) == C.msize
+//@ ensures inv: len(C.rdbuf) == C.msize && 0 <= C.msize
+//@ ensures never_more: C.msize <= M0
+//@ ensures proposal: err == nil ==> exists f Fcall :: {encFcall(f)} out(C.bwr) == bcat(old(out(C.bwr)), bcat(le4(4 + wireSize(f)), encFcall(f))) && f.Tag == NOTAG && typeis(f.Message, MessageTversion) && f.Message.(MessageTversion).MSize == M0
+//@ ensures adopted: err == nil ==> typeis(REP, MessageRversion) && C.msize == min(M0, REP.(MessageRversion).MSize)
